@@ -623,3 +623,4 @@ PROPS["C20"]["rule"] += " In one case in ten the service manager's end of the no
 PROPS["C04"]["rule"] += " Failing-state sub-check (600 / 100 000 cases): the forwarding state cannot be read for stretches of time (EACCES on the sysctl file, a system call error, another error) while solicitations, foreign RAs and flips go on; Run may fail, every RA that does go out must agree with the forwarding state of that moment."
 PROPS["C06"]["rule"] += " One random history in four has the n-th (or every later) unicast transmission fail with a system call error."
 PROPS["C02"]["rule"] += " RDNSS servers include the IPv4 unspecified, broadcast and loopback addresses, three IPv4-mapped spellings and four spellings of the :: wildcard."
+PROPS["C06"]["rule"] += " Thorough tier additionally: every history of exactly 5 events (solicitation from ::, from a host, link change) on the boundary grid {0, 1 ns, 3 s - 1 ns, 3 s, 3 s + 1 ns} (759 375 histories)."
